@@ -5,9 +5,9 @@
 #include <sys/stat.h>
 
 enum { SW_LOCALS, SW_BLOCKLOCALS, SW_LIT, SW_STRINGS, SW_FUNCS, SW_GLOBALS, SW_INHERITS, SW_CLASSES, SW_MEMBERS, SW_SWITCH, SW_INCDEPTH, SW_IFDEPTH, SW_EXPAND, SW_LINELEN, SW_NEST, SW_LITERAL,
-  SW_CODESIZE, SW_OVERRIDE, SW_MANYLITS, SW_SWITCHSTR, SW_ABORT, SW_ROLES, SW_NFAM };
+  SW_CODESIZE, SW_OVERRIDE, SW_MANYLITS, SW_SWITCHSTR, SW_ABORT, SW_ROLES, SW_LITBLK, SW_TERM, SW_NFAM };
 static const char *famname[] = { "locals", "blocklocals", "funlit", "strings", "functions", "globals", "inherits", "classes", "members", "switch", "include-depth", "if-depth",
-  "macro-expansions", "line-length", "nesting", "literal", "code-size", "override", "many-funlits", "switch-string-sizes", "abort-inside-open-construct", "name-roles" };
+  "macro-expansions", "line-length", "nesting", "literal", "code-size", "override", "many-funlits", "switch-string-sizes", "abort-inside-open-construct", "name-roles", "literals-and-closed-blocks", "file-termination" };
 typedef struct { int fam, a, b, c, d; } scase;
 static scase *cases; static long ncases, capcases;
 static void add (int fam, int a, int b, int c, int d) {
@@ -39,8 +39,72 @@ static const char *LITERALS[] = { "0", "1", "2", "254", "255", "256", "257", "-1
   "'\\x100'", "''", "'ab'", "'\\", "'", "L'a'", "L'\\xe4\\xb8\\xad'", "L'\\xff'", "L''" };
 #define NLITERALS ((int) (sizeof LITERALS / sizeof LITERALS[0]))
 
+/* ---- file termination: body x ending x what was compiled just before (the lexer's buffers are static) */
+static const char *TERM_BODY[] = { "", "int x;\n", "int x;\nint f(int a) { return a + x; }\n" };
+static const char *TERM_BODY_NAME[] = { "empty", "one-global", "function" };
+#define NTERM_BODY 3
+static const struct { const char *name, *text; } TERM_END[] = {
+  { "newline", "int y;\n" }, { "no-newline", "int y;" }, { "blank-lines", "int y;\n\n\n\n" }, { "spaces-no-newline", "int y;   \t " },
+  { "line-comment-no-newline", "// c" }, { "empty-line-comment-no-newline", "//" }, { "line-comment-backslash", "// c \\" }, { "line-comment-after-code-no-newline", "int y; // c" },
+  { "block-comment-no-newline", "/* c */" }, { "block-comment-open", "/* c" }, { "block-comment-star", "/* c *" }, { "slash", "/" },
+  { "define-no-newline", "#define ZZ 1" }, { "define-continued", "#define ZZ 1 \\" }, { "define-continued-newline", "#define ZZ 1 \\\n" }, { "define-args-open", "#define ZZ(a" },
+  { "pragma-no-newline", "#pragma strict_types" }, { "include-no-newline", "#include \"a.h\"" }, { "undef-no-newline", "#undef ZZ" }, { "hash", "#" }, { "hash-unknown", "#zork" },
+  { "if-endif-no-newline", "#if 1\nint q;\n#endif" }, { "if0-endif-no-newline", "#if 0\nint q;\n#endif" }, { "if0-open-no-newline", "#if 0\nint q;" }, { "if1-open", "#if 1\nint q;\n" },
+  { "else-no-newline", "#if 0\n#else" }, { "ifdef-no-newline", "#ifdef ZZ" },
+  { "string-open", "string s = \"abc" }, { "string-open-backslash", "string s = \"abc\\" }, { "char-open", "int ch = 'a" }, { "char-quote", "int ch = '" }, { "char-backslash", "int ch = '\\" },
+  { "char-backslash-newline-then-code", "int ch = '\\\n';\nint after_ch;\nint after_fn() { return 6; }\n" }, { "string-backslash-newline-then-code", "string st = \"a\\\nb\";\nint after_st;\n" },
+  { "define-continued-empty-line-then-code", "#define ZZ 1 \\\n\nint after_def = ZZ;\n" },
+  { "text-block-open", "string s = @T\nabc" }, { "text-block-open-newline", "string s = @T\nabc\n" }, { "text-block-terminator-no-newline", "string s = @T\nabc\nT" },
+  { "array-block-open", "string *s = @@T\nabc" }, { "at", "string s = @" }, { "at-name", "string s = @T" },
+  { "backslash", "int y; \\" }, { "macro-call-open", "#define ZF(a,b) a\nint y = ZF(1," }, { "macro-call-open-no-arg", "#define ZF(a,b) a\nint y = ZF(" },
+  { "function-open", "int g() { return 1;" }, { "functional-open", "mixed g = (: 1 +" }, { "number", "int y = 12" }, { "identifier", "int y" }, { "dot-dot", "int y = 1 .." },
+  { "control-byte", "int y;\n\001" }, { "cr-lf", "int y;\r\n" }, { "cr", "int y;\r" },
+};
+#define NTERM_END ((int) (sizeof TERM_END / sizeof TERM_END[0]))
+/* endings of an included file (the includer goes on after it, or ends with the #include line) */
+static const struct { const char *name, *text; } TERM_HDR[] = {
+  { "newline", "int hv;\n" }, { "no-newline", "int hv;" }, { "line-comment-no-newline", "int hv;\n// c" }, { "block-comment-no-newline", "int hv;\n/* c */" },
+  { "define-no-newline", "int hv;\n#define HZ 1" }, { "define-continued", "int hv;\n#define HZ 1 \\" }, { "if-open", "int hv;\n#if 1" }, { "string-open", "string hv = \"abc" },
+  { "text-block-open", "string hv = @T\nabc" }, { "block-comment-open", "int hv;\n/* c" }, { "empty", "" },
+};
+#define NTERM_HDR ((int) (sizeof TERM_HDR / sizeof TERM_HDR[0]))
+#define NTERM_PREV 6
+static const char *TERM_PREV_NAME[] = { "nothing", "a short file", "a long valid file", "a long file ending in a // comment", "a long file with a syntax error", "a long file ending inside a text block" };
+
 /* sizes (in code bytes) of the filler statements of the code-size family, measured after boot */
 static int cs_base[5], cs_sz[5], cs_pz[5], cs_calibrated;
+
+/* (outer function: k live variables + c variables of a block that is closed again) x literal nesting depth 0..3 x (variables of each literal,
+ * again with a closed block in the first two): the sum of the enclosing functions' variables crosses every size the locals tables grow by.
+ * a = depth | v<<2 (v: variables are locals / arguments)   b = k | c<<8   c = m1 | c1<<8 | c2<<9   d = m2 | m3<<8 */
+static void add_litblk (int N) {
+  if (N <= 8) {
+    for (int v = 0; v < 2; v++) for (int k = 0; k <= N + 1; k++) for (int c = 0; c <= 2; c++) {
+      add (SW_LITBLK, 0 | v << 2, k | c << 8, 0, 0);
+      for (int m1 = 0; m1 <= N; m1++) {
+        add (SW_LITBLK, 1 | v << 2, k | c << 8, m1, 0);
+        for (int c1 = 0; c1 <= 1; c1++) for (int m2 = 0; m2 <= N; m2++) {
+          add (SW_LITBLK, 2 | v << 2, k | c << 8, m1 | c1 << 8, m2);
+          for (int m3 = 0; m3 <= N; m3 += N) add (SW_LITBLK, 3 | v << 2, k | c << 8, m1 | c1 << 8, m2 | m3 << 8);
+        }
+      }
+    }
+    return;
+  }
+  int h = N / 2;
+  int K[] = { 0, 1, h, h + 1, N - 1, N }, M1[] = { 0, 1, h - 2, h - 1, h, N - 1, N }, M2[] = { 0, 1, h, h + 1, N - 1, N }, M3[] = { 0, N };
+  for (int v = 0; v < 2; v++) for (int ki = 0; ki < 6; ki++) for (int c = 0; c <= 2; c++) {
+    int k = K[ki];
+    add (SW_LITBLK, 0 | v << 2, k | c << 8, 0, 0);
+    for (int i = 0; i < 7; i++) {
+      add (SW_LITBLK, 1 | v << 2, k | c << 8, M1[i], 0);
+      for (int c1 = 0; c1 <= 1; c1++) for (int j = 0; j < 6; j++) {
+        add (SW_LITBLK, 2 | v << 2, k | c << 8, M1[i] | c1 << 8, M2[j]);
+        for (int l = 0; l < 2; l++) add (SW_LITBLK, 3 | v << 2, k | c << 8, M1[i] | c1 << 8, M2[j] | M3[l] << 8);
+      }
+    }
+  }
+}
 
 void sweep_prepare (int thorough) {
   char dir[PATH_MAX], name[128];
@@ -61,6 +125,10 @@ void sweep_prepare (int thorough) {
     sb_printf (&t, "int %s() { return 11; }\nint other_%d() { return 12; }\n", ROLE_NAMES[k], k);
     snprintf (name, sizeof name, "c02/sw/role_%s.c", ROLE_NAMES[k]);
     wfile (name, (char *) t.b);
+  }
+  for (int k = 0; k < NTERM_HDR; k++) {
+    snprintf (name, sizeof name, "c02/sw/term_h%d.h", k);
+    wfile (name, TERM_HDR[k].text);
   }
   for (int k = 0; k < 262; k++) {
     sb_reset (&t);
@@ -94,7 +162,7 @@ void sweep_prepare (int thorough) {
     }
   }
   around (SW_MEMBERS, N, 0, 0, 0);
-  if (N != 25) return;          /* the scaled-down run only sweeps what depends on the limit */
+  if (N != 25) { add_litblk (N); return; }          /* the scaled-down run only sweeps what depends on the limit */
 
   around (SW_STRINGS, 256, 0, 0, 0);
   around (SW_FUNCS, 256, 0, 0, 0);
@@ -142,6 +210,34 @@ void sweep_prepare (int thorough) {
     }
     for (int kind = 0; kind < 10; kind++) { add (SW_NEST, kind, 10000, 0, 0); add (SW_NEST, kind, 100000, 0, 0); }
   }
+  /* families added later come last: the indices of the cases above (stored replays) stay what they were */
+  add_litblk (N);
+  for (int body = 0; body < NTERM_BODY; body++) for (int e = 0; e < NTERM_END + 2 * NTERM_HDR; e++) for (int mode = 0; mode < 2; mode++) for (int prev = 0; prev < NTERM_PREV; prev++) add (SW_TERM, body, e, prev, mode);
+}
+
+/* is this case compared with the outcome of another case (the same text compiled with nothing before it)?  -> index of that case, else -1 */
+long sweep_ref (long idx) {
+  if (idx < 0 || idx >= ncases || cases[idx].fam != SW_TERM) return -1;
+  return idx - cases[idx].c;
+}
+/* must this case start from the locals tables of a freshly booted driver (they only ever grow)? */
+/* 0 = the text is read through a file descriptor, 1 = it is handed over as pre_text */
+int sweep_mode (long idx) { return (idx >= 0 && idx < ncases && cases[idx].fam == SW_TERM) ? cases[idx].d : 0; }
+int sweep_fresh (long idx) { return idx >= 0 && idx < ncases && (cases[idx].fam == SW_LITBLK || cases[idx].fam == SW_LIT || cases[idx].fam == SW_LOCALS || cases[idx].fam == SW_BLOCKLOCALS); }
+/* text of the file compiled just before the case (0 = nothing) */
+int sweep_prev (long idx, sb_t *o, char *desc, size_t dlen) {
+  sb_reset (o);
+  if (idx < 0 || idx >= ncases || cases[idx].fam != SW_TERM || !cases[idx].c) return 0;
+  int p = cases[idx].c;
+  snprintf (desc, dlen, "%s", TERM_PREV_NAME[p]);
+  if (p == 1) { sb_puts (o, "int p;\n"); return 1; }
+  for (int i = 0; i < 160; i++) {
+    if (p == 4 && i == 80) sb_puts (o, "int broken( { return ; }\n");
+    sb_printf (o, "int prev_fn_%03d(int a) { return a + %d; }\n", i, i);
+  }
+  if (p == 3) sb_puts (o, "// the previous file ends in a comment: int stale_a; int stale_fn() { return 77; }");
+  if (p == 5) sb_puts (o, "string prev_text() { return @PT\nint stale_b;\nint stale_fn2() { return 78; }\n");
+  return 1;
 }
 
 long sweep_total (void) { return ncases; }
@@ -422,6 +518,41 @@ int sweep_gen (long idx, sb_t *o, char *desc, size_t dlen) {
       sb_puts (o, open_[c.b]); sb_puts (o, ab); sb_puts (o, close_[c.b]);
     }
     sb_puts (o, "int tail() { return 1; }\n");
+    break;
+  }
+  case SW_LITBLK: {
+    int d = c.a & 3, v = c.a >> 2, cnt[4], closed[4];
+    cnt[0] = c.b & 255; closed[0] = c.b >> 8; cnt[1] = c.c & 255; closed[1] = (c.c >> 8) & 1; closed[2] = (c.c >> 9) & 1; cnt[2] = c.d & 255; cnt[3] = c.d >> 8; closed[3] = 0;
+    for (int l = 0; l <= d; l++) {
+      sb_puts (o, l == 0 ? "mixed f(" : "function(");
+      if (v) decl_list (o, "v", l, 0, cnt[l], 1);
+      sb_puts (o, ") {\n");
+      if (!v && cnt[l]) { sb_puts (o, "  int "); for (int i = 0; i < cnt[l]; i++) sb_printf (o, "%sv%d_%d", i ? ", " : "", l, i); sb_puts (o, ";\n"); }
+      if (closed[l]) { sb_puts (o, "  { int "); for (int i = 0; i < closed[l]; i++) sb_printf (o, "%st%d_%d", i ? ", " : "", l, i); sb_printf (o, "; t%d_0 = %d; }\n", l, l + 1); }
+      if (cnt[l]) sb_printf (o, "  v%d_%d = %d;\n", l, cnt[l] - 1, l);
+      sb_puts (o, l < d ? "  return ({ " : "  return ");
+    }
+    for (int l = d; l >= 0; l--) {
+      if (cnt[l]) sb_printf (o, "v%d_0", l); else sb_printf (o, "%d", l);
+      sb_puts (o, l < d ? " })[0];\n}" : ";\n}");
+      sb_puts (o, l ? ", " : "\n");
+    }
+    snprintf (desc, dlen, "literals-and-closed-blocks depth=%d %s outer=%d+%d closed lit1=%d+%d lit2=%d+%d lit3=%d maxlocals=%d", d, v ? "arguments" : "locals", cnt[0], closed[0],
+              d >= 1 ? cnt[1] : 0, d >= 1 ? closed[1] : 0, d >= 2 ? cnt[2] : 0, d >= 2 ? closed[2] : 0, d >= 3 ? cnt[3] : 0, c02_maxlocals);
+    break;
+  }
+  case SW_TERM: {
+    const char *en;
+    sb_puts (o, TERM_BODY[c.a]);
+    if (c.b < NTERM_END) { sb_puts (o, TERM_END[c.b].text); en = TERM_END[c.b].name; }
+    else {
+      int h = (c.b - NTERM_END) % NTERM_HDR, last = (c.b - NTERM_END) / NTERM_HDR;
+      static char nm[100];
+      sb_printf (o, "#include \"sw/term_h%d.h\"%s", h, last ? "" : "\nint after_inc;\nint after_fn() { return 5; }\n");
+      snprintf (nm, sizeof nm, "include-of-header-ending-%s%s", TERM_HDR[h].name, last ? "-as-last-line-no-newline" : "");
+      en = nm;
+    }
+    snprintf (desc, dlen, "file-termination body=%s ending=%s %s after %s", TERM_BODY_NAME[c.a], en, c.d ? "as-pre_text" : "from-file", TERM_PREV_NAME[c.c]);
     break;
   }
   case SW_OVERRIDE:
